@@ -63,6 +63,13 @@ Fixpoint resolve (l : list snap) : option (cells * list frames) :=
                       end
   end.
 
+(* a snapshot the FSM has created (fsmSnapshot returned) and raft's snapshot goroutine has not yet persisted;
+   entries are applied meanwhile.  A full snapshot holds the database file as it was (the streamer keeps the
+   old file open across a swap); an incremental one only names the staging directory. *)
+Inductive pend :=
+| PendFull (idx : N) (img : cells) (swapped : bool)
+| PendInc (idx : N) (swapped : bool).     (* swapped: the database was replaced (load) since the snapshot was created *)
+
 Record st := {
   dbf : cells;                 (* database file: content as of the last checkpoint / swap *)
   wal : frames;                (* live WAL *)
@@ -70,10 +77,12 @@ Record st := {
   snaps : list snap;
   full_needed : bool;          (* FULL_NEEDED flag file *)
   log : list entry;
+  mnewer : bool;               (* the database file is newer than Store.dbModifiedTime (the dbModified() guard) *)
+  pending : option pend;       (* snapshot created but not yet persisted / released *)
 }.
 
 Definition init : st :=
-  {| dbf := []; wal := []; staging := []; snaps := []; full_needed := false; log := [] |}.
+  {| dbf := []; wal := []; staging := []; snaps := []; full_needed := false; log := []; mnewer := false; pending := None |}.
 
 Definition live (s : st) : cells := apply_frames (dbf s) (wal s).
 Definition applied (s : st) : N := N.of_nat (length (log s)).
@@ -95,18 +104,17 @@ Definition suffix (s : st) : list entry := skipn (N.to_nat (newest_idx s)) (log 
 Definition rebuilt (s : st) : option cells :=
   match restored s with Some r => Some (replay (suffix s) r) | None => None end.
 
+(* Store.snapshotDueNext: FULL_NEEDED, or an empty snapshot store, or the dbModified() guard *)
 Definition full_due (s : st) : bool :=
-  full_needed s || match snaps s with [] => true | _ => false end.
+  full_needed s || match snaps s with [] => true | _ => false end || mnewer s.
 
-(* PBlocked: fsmSnapshot itself fails -- the TRUNCATE checkpoint, of a full or of an incremental snapshot, is busy
-   because of a reader (250 ms timeout).  Nothing is persisted and nothing changes: the segment the attempt was
-   writing is cancelled, and every segment ALREADY in the staging directory (left by earlier attempts that were
-   not persisted) stays, because its frames are in the database file and nowhere else. *)
-Inductive outcome := POk | PNotInvoked | PFailBefore | PFailAfter | PBlocked.
+Inductive outcome := POk | PNotInvoked | PFailBefore | PFailAfter.
 
 Inductive op :=
 | OWrite (ks : list N) (v : N)
-| OSnap (o : outcome)
+| OSnapBegin                 (* fsmSnapshot: full/incremental decision, checkpoint, staging; the snapshot is now in flight *)
+| OSnapPersist (o : outcome) (* raft's snapshot goroutine: Create, Persist, sink.Close, Release -- with outcome o *)
+| OSnapBlocked               (* fsmSnapshot fails: the TRUNCATE checkpoint (full or incremental) is busy because of a reader *)
 | OLoad (c : list N)
 | OLoadBad
 | OBoot (c : list N)
@@ -115,69 +123,123 @@ Inductive op :=
 | OReap
 | ORestart.
 
-Definition set_dbf s d w := {| dbf := d; wal := w; staging := staging s; snaps := snaps s; full_needed := full_needed s; log := log s |}.
-Definition set_staging s g := {| dbf := dbf s; wal := wal s; staging := g; snaps := snaps s; full_needed := full_needed s; log := log s |}.
-Definition set_snaps s l := {| dbf := dbf s; wal := wal s; staging := staging s; snaps := l; full_needed := full_needed s; log := log s |}.
-Definition set_full s b := {| dbf := dbf s; wal := wal s; staging := staging s; snaps := snaps s; full_needed := b; log := log s |}.
-Definition add_log s e := {| dbf := dbf s; wal := wal s; staging := staging s; snaps := snaps s; full_needed := full_needed s; log := log s ++ [e] |}.
+Definition set_dbf s d w := {| dbf := d; wal := w; staging := staging s; snaps := snaps s; full_needed := full_needed s; log := log s; mnewer := mnewer s; pending := pending s |}.
+Definition set_staging s g := {| dbf := dbf s; wal := wal s; staging := g; snaps := snaps s; full_needed := full_needed s; log := log s; mnewer := mnewer s; pending := pending s |}.
+Definition set_snaps s l := {| dbf := dbf s; wal := wal s; staging := staging s; snaps := l; full_needed := full_needed s; log := log s; mnewer := mnewer s; pending := pending s |}.
+Definition set_full s b := {| dbf := dbf s; wal := wal s; staging := staging s; snaps := snaps s; full_needed := b; log := log s; mnewer := mnewer s; pending := pending s |}.
+Definition add_log s e := {| dbf := dbf s; wal := wal s; staging := staging s; snaps := snaps s; full_needed := full_needed s; log := log s ++ [e]; mnewer := mnewer s; pending := pending s |}.
+Definition set_mnewer s b := {| dbf := dbf s; wal := wal s; staging := staging s; snaps := snaps s; full_needed := full_needed s; log := log s; mnewer := b; pending := pending s |}.
+Definition set_pending s p := {| dbf := dbf s; wal := wal s; staging := staging s; snaps := snaps s; full_needed := full_needed s; log := log s; mnewer := mnewer s; pending := p |}.
 
-(* fsmSnapshot followed by what raft's takeSnapshot does with it, by persist outcome.
-   [clear] = the staging directory is emptied when the base changes (the repaired code). *)
-Definition snapshot_step (clear : bool) (s : st) (o : outcome) : st * N :=
-  if full_due s then
-    (* full: Checkpoint(nil) TRUNCATE; the database file then holds everything *)
-    let s1 := set_dbf s (apply_frames (dbf s) (wal s)) [] in
-    let s2 := if clear then set_staging s1 [] else s1 in
-    match o with
-    | PNotInvoked => (s2, 0)
-    | PFailBefore =>
-        (* OnRelease(invoked, failed): FULL_NEEDED iff the staging directory is gone *)
-        (match staging s2 with [] => set_full s2 true | _ => s2 end, 0)
-    | PFailAfter => (set_full (set_staging s2 []) true, 0)
-    | POk => (set_full (set_snaps s2 (SFull (applied s2) (dbf s2) [] :: snaps s2)) false, 0)
-    | PBlocked => (s, 7)
-    end
-  else
-    match wal s with
-    | [] => (s, 1)                                   (* ErrNoWALToSnapshot *)
-    | _ =>
-        (* incremental: compacted WAL written into the staging dir, then checkpoint *)
-        let s1 := set_staging (set_dbf s (apply_frames (dbf s) (wal s)) []) (staging s ++ [wal s]) in
-        match o with
-        | PNotInvoked | PFailBefore => (s1, 0)       (* staged WALs kept for the next snapshot *)
-        | PFailAfter => (set_full (set_staging s1 []) true, 0)
-        | POk => (set_full (set_staging (set_snaps s1 (SInc (applied s1) (staging s1) :: snaps s1)) []) false, 0)
-        | PBlocked => (s, 7)
+Definition mark_swapped (p : option pend) : option pend :=
+  match p with
+  | Some (PendFull i img _) => Some (PendFull i img true)
+  | Some (PendInc i _) => Some (PendInc i true)
+  | None => None
+  end.
+Definition was_swapped (p : pend) : bool := match p with PendFull _ _ b => b | PendInc _ b => b end.
+
+(* fsmSnapshot.  [clear] = the staging directory is emptied when a full snapshot starts a new series (repair 1).
+   Every attempt that gets as far as the decision ends by recording the file's modification time. *)
+Definition snap_begin (clear : bool) (s : st) : st * N :=
+  match pending s with
+  | Some _ => (s, 8)                                   (* raft takes one snapshot at a time *)
+  | None =>
+      if full_due s then
+        (* full: Checkpoint(nil) TRUNCATE; the database file then holds everything; streamer opened on it *)
+        let s1 := set_mnewer (set_dbf s (apply_frames (dbf s) (wal s)) []) false in
+        let s2 := if clear then set_staging s1 [] else s1 in
+        (set_pending s2 (Some (PendFull (applied s2) (dbf s2) false)), 0)
+      else
+        match wal s with
+        | [] => (set_mnewer s false, 1)                (* ErrNoWALToSnapshot *)
+        | _ =>
+            (* incremental: compacted WAL written into the staging dir, then checkpoint *)
+            let s1 := set_mnewer (set_staging (set_dbf s (apply_frames (dbf s) (wal s)) []) (staging s ++ [wal s])) false in
+            (set_pending s1 (Some (PendInc (applied s1) false)), 0)
         end
-    end.
+  end.
 
-(* replay of one log entry by fsmApply at start-up *)
+(* fsmSnapshot fails because the checkpoint is busy.  Nothing is staged, cleared or persisted: the segment the
+   attempt was writing is cancelled, and every segment ALREADY in the staging directory (left by earlier
+   attempts that were not persisted) stays, because its frames are in the database file and nowhere else.
+   Only the recorded modification time is refreshed. *)
+Definition snap_blocked (s : st) : st * N :=
+  match pending s with
+  | Some _ => (s, 8)
+  | None =>
+      if full_due s then (set_mnewer s false, 7)
+      else match wal s with [] => (set_mnewer s false, 1) | _ => (set_mnewer s false, 7) end
+  end.
+
+(* raft's takeSnapshot after fsmSnapshot: Create, Persist, sink.Close, Release (OnRelease).
+   [reset] = a snapshot that finds the database swapped since it was created asks for a full snapshot again
+   when it is released (repair 2); without it the close of an older full snapshot erases the load's FULL_NEEDED. *)
+Definition snap_persist (reset : bool) (s : st) (o : outcome) : st * N :=
+  match pending s with
+  | None => (s, 8)
+  | Some p =>
+      let s0 := set_pending s None in
+      let '(s1, res) :=
+        match p with
+        | PendFull i img _ =>
+            match o with
+            | POk => (set_full (set_snaps s0 (SFull i img [] :: snaps s0)) false, 0)   (* Sink.Close clears FULL_NEEDED *)
+            | PNotInvoked => (s0, 0)
+            | PFailBefore =>
+                (* OnRelease(invoked, failed): FULL_NEEDED iff the staging directory is gone *)
+                (match staging s0 with [] => set_full s0 true | _ => s0 end, 0)
+            | PFailAfter => (set_full (set_staging s0 []) true, 0)
+            end
+        | PendInc i _ =>
+            match o with
+            | POk =>
+                if full_needed s0 then (s0, 10)        (* Sink.Write: "full snapshot needed before incremental can be applied" *)
+                else (set_full (set_staging (set_snaps s0 (SInc i (staging s0) :: snaps s0)) []) false, 0)
+            | PNotInvoked | PFailBefore => (s0, 0)     (* staged WALs kept for the next snapshot *)
+            | PFailAfter => (set_full (set_staging s0 []) true, 0)
+            end
+        end in
+      (if reset && was_swapped p then set_full s1 true else s1, res)
+  end.
+
+(* replay of one log entry by fsmApply (also at start-up) *)
 Definition apply_phys (s : st) (e : entry) : st :=
   match e with
   | EWrite w => set_dbf s (dbf s) (wal s ++ w)
-  | ELoad c => set_full (set_dbf s c []) true
-  | ELoadBad => set_full s true
+  | ELoad c => set_pending (set_mnewer (set_full (set_dbf s c []) true) true) (mark_swapped (pending s))
+  | ELoadBad => set_pending (set_full s true) (mark_swapped (pending s))
   | ENoop => s
   end.
 
-Definition step_gen (clear : bool) (s : st) (o : op) : st * N :=
+Definition step_gen (clear reset : bool) (s : st) (o : op) : st * N :=
   match o with
   | OWrite ks v => (apply_phys (add_log s (EWrite (map (fun k => (k, v)) ks))) (EWrite (map (fun k => (k, v)) ks)), 0)
-  | OSnap out => snapshot_step clear s out
+  | OSnapBegin => snap_begin clear s
+  | OSnapPersist out => snap_persist reset s out
+  | OSnapBlocked => snap_blocked s
   | OLoad c => (apply_phys (add_log s (ELoad (cells_of_vec c))) (ELoad (cells_of_vec c)), 0)
   | OLoadBad => (apply_phys (add_log s ELoadBad) ELoadBad, 3)
   | OBoot c =>
-      (* Noop through the log, swap, SetDueNext(Full), Snapshot(1) *)
-      let s1 := set_full (set_dbf (add_log s ENoop) (cells_of_vec c) []) true in
-      snapshot_step clear s1 POk
+      (* Noop through the log, swap, SetDueNext(Full), Snapshot(1) (which waits for a snapshot in flight: not modelled) *)
+      match pending s with
+      | Some _ => (s, 8)
+      | None =>
+          let s1 := set_mnewer (set_full (set_dbf (add_log s ENoop) (cells_of_vec c) []) true) true in
+          snap_persist reset (fst (snap_begin clear s1)) POk
+      end
   | OInstall c segs =>
       (* sink.Close of the incoming snapshot (database + WAL files in one full snapshot directory; clears
-         FULL_NEEDED), then fsmRestore of it *)
-      let d := cells_of_vec c in
-      let ws := map (fun '(ks, v) => map (fun k => (k, v)) ks) segs in
-      let s1 := set_full (set_snaps s (SFull (applied s) d ws :: snaps s)) false in
-      let s2 := set_dbf s1 (apply_segs d ws) [] in
-      (if clear then set_staging s2 [] else s2, 0)
+         FULL_NEEDED), then fsmRestore of it (which records the new file's modification time) *)
+      match pending s with
+      | Some _ => (s, 8)
+      | None =>
+          let d := cells_of_vec c in
+          let ws := map (fun '(ks, v) => map (fun k => (k, v)) ks) segs in
+          let s1 := set_full (set_snaps s (SFull (applied s) d ws :: snaps s)) false in
+          let s2 := set_mnewer (set_dbf s1 (apply_segs d ws) []) false in
+          (if clear then set_staging s2 [] else s2, 0)
+      end
   | OReap =>
       match snaps s with
       | [] | [_] => (s, 0)
@@ -187,16 +249,17 @@ Definition step_gen (clear : bool) (s : st) (o : op) : st * N :=
              end
       end
   | ORestart =>
-      (* Open: staging dir removed, WAL discarded, database = newest snapshot, log suffix replayed *)
+      (* a new process: the snapshot in flight is gone, nothing is recorded about the file's time; Open: staging
+         dir removed, WAL discarded, database = newest snapshot, log suffix replayed *)
       match restored s with
-      | Some r => (fold_left apply_phys (suffix s) (set_staging (set_dbf s r []) []), 0)
+      | Some r => (fold_left apply_phys (suffix s) (set_pending (set_mnewer (set_staging (set_dbf s r []) []) false) None), 0)
       | None => (s, 2)
       end
   end.
 
-Definition step := step_gen true.
-Definition run_gen (clear : bool) (ops : list op) : st := fold_left (fun s o => fst (step_gen clear s o)) ops init.
-Definition run := run_gen true.
+Definition step := step_gen true true.
+Definition run_gen (clear reset : bool) (ops : list op) : st := fold_left (fun s o => fst (step_gen clear reset s o)) ops init.
+Definition run := run_gen true true.
 
 (* ---- correspondence ---- *)
 Definition universe : list N := map N.of_nat (seq 1 24).
@@ -204,7 +267,9 @@ Definition dump (d : cells) : list N := map (get d) universe.
 Definition dump_opt (d : option cells) : list N := match d with Some c => dump c | None => map (fun _ => 888888) universe end.
 
 Record obs := {
-  o_res : N;                        (* 0 done, 1 nothing to snapshot, 3 load rejected, 7 checkpoint blocked *)
+  o_res : N;                        (* 0 done, 1 nothing to snapshot, 3 load rejected, 7 checkpoint blocked, 8 not possible now
+                                       (snapshot in flight / none in flight), 10 incremental persist refused (full needed) *)
+  o_pend : N;                       (* snapshot in flight: 0 none, 1 full, 2 incremental *)
   o_staged : N;
   o_cat : list (bool * N * N);      (* newest first: is-full, index (number of log entries covered), WAL files *)
   o_chain : list (N * N);           (* resolved WAL files of the newest snapshot, in replay order *)
@@ -231,7 +296,7 @@ Fixpoint chain_labels (l : list snap) (depth : N) : list (N * N) :=
   end.
 
 Definition observe (s : st) (res : N) : obs :=
-  {| o_res := res; o_staged := N.of_nat (length (staging s)); o_cat := map cat_of (snaps s); o_chain := chain_labels (snaps s) 0; o_full := full_needed s;
+  {| o_res := res; o_pend := match pending s with None => 0 | Some (PendFull _ _ _) => 1 | Some (PendInc _ _) => 2 end; o_staged := N.of_nat (length (staging s)); o_cat := map cat_of (snaps s); o_chain := chain_labels (snaps s) 0; o_full := full_needed s;
      o_restored := dump_opt (restored s); o_rebuilt := dump_opt (rebuilt s); o_live := dump (live s) |}.
 
 Fixpoint list_eqb {A} (f : A -> A -> bool) (a b : list A) : bool :=
@@ -245,7 +310,7 @@ Definition cat_eqb (a b : bool * N * N) : bool :=
   let '(f1, i1, n1) := a in let '(f2, i2, n2) := b in Bool.eqb f1 f2 && (i1 =? i2) && (n1 =? n2).
 
 Definition obs_eqb (a b : obs) : bool :=
-  (o_res a =? o_res b) && (o_staged a =? o_staged b) && list_eqb cat_eqb (o_cat a) (o_cat b)
+  (o_res a =? o_res b) && (o_pend a =? o_pend b) && (o_staged a =? o_staged b) && list_eqb cat_eqb (o_cat a) (o_cat b)
   && list_eqb (fun x y => (fst x =? fst y) && (snd x =? snd y)) (o_chain a) (o_chain b)
   && Bool.eqb (o_full a) (o_full b) && list_eqb N.eqb (o_restored a) (o_restored b)
   && list_eqb N.eqb (o_rebuilt a) (o_rebuilt b) && list_eqb N.eqb (o_live a) (o_live b).
